@@ -98,9 +98,22 @@ def check_table_roles(cx: Cx, ob: Ob, tables_wanted: list[str]) -> None:
                 # patterns are optional: the constructor enters a record only when it HAS a pattern; the indexer must
                 # make the same selection, or converters built incrementally carry `prefix -> None` entries
                 cent = ctor.get(table) or []
-                ctor_sel = any(op(c) == "attr" and c[2] == "pattern" and pol is True for e0 in cent for c, pol in e0.conditions)
+                def _selects(conds) -> bool:
+                    return any(pol is True and isinstance(c, tuple) and any(op(x) == "attr" and x[2] == "pattern" for x in subterms(c)) for c, pol in conds)
+
+                ctor_sel = any(_selects(e0.conditions) for e0 in cent)
+                ixs_ = cx.summary(ixfn, ob.id)
+
+                def _selects_on_every_path(line) -> bool:
+                    # must-guards are the intersection over paths; here the same test may be spelled with another
+                    # record term on each path (record / into): ask every path that reaches the write
+                    hits = [ctx_ for ev_, ctx_ in ixs_.walk() if ev_.line == line and ev_.kind in ("store", "expr") and any(op(x) == "attr" and x[2] == "pattern_map" for x in subterms(ev_.a))]
+                    # an update with an EMPTY key list (the other arm of `[prefix] if has_pattern else []`) writes nothing
+                    hits = [c_ for c_ in hits if not any(g.kind == "guard" and g.b is False and any(op(x) == "attr" and x[2] == "pattern" for x in subterms(g.a)) for g in c_.guards)]
+                    return bool(hits) and all(_selects([(g.a, g.b) for g in ctx_.guards if g.kind == "guard"]) for ctx_ in hits)
+
                 for e in entries:
-                    sel = any(op(c) == "attr" and c[2] == "pattern" and pol is True for c, pol in e.conditions)
+                    sel = _selects(e.conditions) or _selects_on_every_path(e.line)
                     if ctor_sel and not sel:
                         ob.violate(e.fn, e.site, "_index enters the record into pattern_map whether or not it has a pattern (the constructor enters only records with one): after add_record / add_prefix of a record without pattern, pattern_map holds `prefix -> None`, which a converter built from the same records does not", detail="pattern_map:unselected")
             for f in sorted(key_fields):
